@@ -4,6 +4,7 @@ package main
 import (
 	"bytes"
 	"encoding/base64"
+	"encoding/json"
 	"fmt"
 	"io"
 	"log"
@@ -57,6 +58,20 @@ func unmarshal(b []byte) (q lorawan.PHYPayload, s string) {
 
 var reused reuse.Receiver
 
+// observe renders a frame the way logging / debugging code does. None of this may change the frame.
+func observe(s *cases.Set, p *lorawan.PHYPayload, foptsLen int, when string) {
+	defer func() { _ = recover() }()
+	before := framefmt.Phy(*p, foptsLen)
+	_, _ = json.Marshal(*p)
+	_, _ = json.Marshal(p)
+	_, _ = p.MarshalText()
+	_ = fmt.Sprintf("%+v %v", *p, p.MACPayload)
+	if after := framefmt.Phy(*p, foptsLen); after != before {
+		s.Fail(cases.GoFail{Key: "observer-changes-frame:" + before, What: "rendering a frame (json.Marshal / MarshalText / fmt) " + when + " changed it to " + after,
+			Replay: map[string]interface{}{"frame": before, "after": after}})
+	}
+}
+
 func roundTrip(s *cases.Set, p lorawan.PHYPayload, kind string) { roundTripL(s, p, kind, 0) }
 
 // roundTripL: foptsLen is the value of the unexported FCtrl.fOptsLen field of p (0 for hand-built
@@ -64,6 +79,7 @@ func roundTrip(s *cases.Set, p lorawan.PHYPayload, kind string) { roundTripL(s, 
 func roundTripL(s *cases.Set, p lorawan.PHYPayload, kind string, foptsLen int) {
 	t := framefmt.Phy(p, foptsLen)
 	noise.Step(nr)
+	observe(s, &p, foptsLen, "before encoding")
 	b, oenc := marshal(p)
 	odec := cq.Err
 	if b != nil {
@@ -194,6 +210,35 @@ func main() {
 	}
 	for i := 0; i < n; i++ {
 		roundTrip(s, framefmt.DataFrame(r, framefmt.ValidDataOpt(r)), "data-valid")
+		if i%3 == 1 { // the same frames in other Go shapes: payload bytes split over several elements, empty non-nil lists
+			p := framefmt.DataFrame(r, framefmt.ValidDataOpt(r))
+			m := p.MACPayload.(*lorawan.MACPayload)
+			if len(m.FRMPayload) == 1 {
+				if dp, ok := m.FRMPayload[0].(*lorawan.DataPayload); ok && len(dp.Bytes) >= 2 {
+					k := 1 + r.Intn(len(dp.Bytes)-1)
+					m.FRMPayload = []lorawan.Payload{&lorawan.DataPayload{Bytes: dp.Bytes[:k]}, &lorawan.DataPayload{Bytes: dp.Bytes[k:]}}
+					if r.Bool() {
+						m.FRMPayload = append(m.FRMPayload, &lorawan.DataPayload{})
+					}
+				}
+			}
+			if len(m.FHDR.FOpts) == 0 {
+				m.FHDR.FOpts = make([]lorawan.Payload, 0, r.Intn(4))
+			}
+			if len(m.FRMPayload) == 0 && r.Bool() {
+				m.FRMPayload = []lorawan.Payload{}
+			}
+			roundTrip(s, p, "data-valid-other-shape")
+			if r.Intn(3) == 0 { // FPort 0, no FOpts: a data element first, then commands (a new frame: p is remembered)
+				o := framefmt.ValidDataOpt(r)
+				o.Port, o.FOptsBytes, o.FRMLen, o.FRMAsMAC = 0, 0, 0, false
+				p2 := framefmt.DataFrame(r, o)
+				m2 := p2.MACPayload.(*lorawan.MACPayload)
+				up := p2.MHDR.MType == lorawan.UnconfirmedDataUp || p2.MHDR.MType == lorawan.ConfirmedDataUp
+				m2.FRMPayload = append([]lorawan.Payload{&lorawan.DataPayload{Bytes: r.Bytes(1 + r.Intn(4))}}, framefmt.ValidCmds(r, up, 1+r.Intn(10))...)
+				roundTrip(s, p2, "data-port0-data-then-commands")
+			}
+		}
 		if i%4 == 0 {
 			k := (i / 4) % 5
 			roundTrip(s, framefmt.JoinFrame(r, k), fmt.Sprintf("join-kind%d", k))
@@ -323,6 +368,7 @@ func main() {
 		}
 	}
 	s.ReplayRemembered(nr.Intn, 3, func() { noise.Step(nr) })
+	s.ReplayConcurrently(8, 2, 60*time.Second)
 	if err := s.Finish(); err != nil {
 		fmt.Fprintln(os.Stderr, err)
 		os.Exit(2)
